@@ -725,6 +725,36 @@ func OpenFindingSentinels() []*prog.Program {
 	return out
 }
 
+// OrTightLoop: an inclusive fork / join pair (k branches, all taken) in a loop with a single task
+// between the join and the way back: the join is reached again while the gateways' flow
+// trackers may still be digesting the previous activation.
+func OrTightLoop(k int) *prog.Program {
+	b := prog.NewBuilder(fmt.Sprintf("or_tight_loop_%d", k))
+	s := b.AddNode("start", "")
+	m := b.AddNode("xor", "")
+	o := b.AddNode("or", "")
+	j := b.AddNode("or", "")
+	b.Connect(s, m, prog.Cond{})
+	b.Connect(m, o, prog.Cond{})
+	for i := 0; i < k; i++ {
+		t := b.AddNode("task", "")
+		b.Connect(o, t, prog.Cond{K: "true"})
+		b.Connect(t, j, prog.Cond{})
+	}
+	c := b.AddNode("task", "")
+	b.N(c).Writes = []string{"again"}
+	b.P.Dom["again"] = []int{0, 1}
+	b.P.Vars0["again"] = 0
+	x := b.AddNode("xor", "")
+	e := b.AddNode("end", "")
+	b.Connect(j, c, prog.Cond{})
+	b.Connect(c, x, prog.Cond{})
+	b.Connect(x, m, prog.Cond{K: "eq", V: "again", C: 1})
+	b.N(x).Default = b.Connect(x, e, prog.Cond{})
+	b.P.Tags = append(b.P.Tags, "or", "loop", "or-in-loop", "or-nodefault")
+	return b.Done()
+}
+
 // ThrowShapes: intermediate throw events next to catch events -- one reached late (behind a
 // task), one on a branch never taken: events handed to the instance meanwhile must not wait for
 // a node no token has reached.
